@@ -924,6 +924,31 @@ func (H *nH) arrSet(n *nNode, i int, e *nElem, keep bool) *nNode {
 	return d
 }
 
+// selfSet: Array.Set / OrderedMap.Set of the child container a slot already holds (same wrappers)
+func (H *nH) selfSet(n *nNode) {
+	var slots []int
+	for i, e := range n.elems {
+		if e.child != nil {
+			slots = append(slots, i)
+		}
+	}
+	i := slots[H.rng.Intn(len(slots))]
+	e := n.elems[i]
+	p := H.before(n)
+	var st atree.Storable
+	var err error
+	if n.isMap {
+		st, err = n.m.Set(testutils.CompareValue, testutils.GetHashInput, e.key, e.value())
+	} else {
+		st, err = n.arr.Set(uint64(i), e.value())
+	}
+	H.check(err, "C10: writing a child container back into its own slot failed")
+	if st == nil {
+		H.fail("C10: writing a child container back into its own slot returned no previous element", fmt.Sprint(e.child.vid))
+	}
+	H.after(p, "selfset")
+}
+
 func (H *nH) arrRemove(n *nNode, i int, keep bool) *nNode {
 	p := H.before(n)
 	old := n.elems[i]
@@ -1435,6 +1460,14 @@ func (H *nH) doStep() {
 		}
 	}
 	cnt := len(n.elems)
+	// only without a model trace (the forest model has no such operation): write a child back into the slot
+	// it already occupies, wrapped as it is stored; the library keeps it attached, nothing changes
+	if H.tr == nil && r.Chance(4) {
+		if p := H.pickNode(func(x *nNode) bool { return x.hasChild() }); p != nil {
+			H.selfSet(p)
+			return
+		}
+	}
 	switch r.Pick(26, 12, 10, 20, 1, 2, 12, 7, 4, 3) {
 	case 0:
 		H.insertScalar(n, r.Chance(25), r.Chance(30))
